@@ -821,7 +821,7 @@ def check_merge(ctx, idx, rng):
     n_genes = rng.randrange(1, 4)
     genes = gen_names(rng, n_genes, 'g')
     n_sets = rng.choice([1, 2, 2, 3, 3])
-    mutate = rng.choice([None] * 6 + ['genes', 'tree'])
+    mutate = rng.choice([None] * 6 + ['genes', 'tree', 'rows', 'rows'])
     sets, paths = [], []
     names = gen_names(rng, n_sets, 'ds')
     for s in range(n_sets):
@@ -855,6 +855,23 @@ def check_merge(ctx, idx, rng):
                     normalization='log2CPM', tmp_dir=str(d), n_processors=rng.choice([1, 2]))
         except Exception:      # childless extra node etc.: skip this merge case
             return
+        if mutate == 'rows' and s == n_sets - 1 and n_sets > 1 and n_leaves > 1:
+            # the same statistics with the rows in another order (as truncate_precomputed_stats_file numbers
+            # them: tree order, not sorted names): a legitimate file whose cluster_to_row differs
+            with h5py.File(out, 'r+') as f_:
+                c2r = json.loads(f_['cluster_to_row'][()].decode('utf-8'))
+                nrow = len(c2r)
+                perm = list(range(nrow))
+                while perm == list(range(nrow)):
+                    rng.shuffle(perm)
+                for key_ in ('n_cells',) + KEYS2:
+                    old_ = f_[key_][()]
+                    new_ = np.zeros_like(old_)
+                    for r_old, r_new in enumerate(perm):
+                        new_[r_new] = old_[r_old]
+                    f_[key_][...] = new_
+                del f_['cluster_to_row']
+                f_.create_dataset('cluster_to_row', data=json.dumps({c_: perm[r_] for c_, r_ in c2r.items()}).encode('utf-8'))
         sets.append({'cells': cells, 'label': lab, 'M': M, 'genes': these_genes, 'tdict': td, 'stats': read_stats(out)})
         paths.append(str(out))
     order = list(range(n_sets))
